@@ -389,3 +389,10 @@ package boltz
 //@   nosafety
 //@   requires[after-commit] committed
 //@   modifies *
+
+// A child-store strategy that does not handle an update has nothing to report.
+//@ func (ChildStoreStrategy).HandleUpdate
+//@   props C07
+//@   impl all
+//@   modifies *
+//@   ensures[unhandled-has-no-error] !result0 ==> result1 == nil
